@@ -106,7 +106,10 @@ def check_loops(ctx: Ctx) -> None:
             p = None
             for s, lab in h.succ:
                 if lab == "T" and s not in progress:
-                    p = flow.cfg.path_avoiding(s, h, progress) if s is not h else [s]
+                    # a trip round *this* loop: the path stays inside its body (leaving it and coming back through an
+                    # enclosing loop is a new entry, not an iteration)
+                    outside = {x for x in flow.cfg.nodes if x not in body and x is not h}
+                    p = flow.cfg.path_avoiding(s, h, progress | outside) if s is not h else [s]
                     if p is not None:
                         break
             ctx.ob("R-TERM-T1", f"{fi.qual} :: while {norm(h.ast)[:60]}", p is None,
